@@ -211,6 +211,11 @@ impl Dispatch {
     }
 }
 impl Dispatch {
+    /// … of which `shutdown` and `wait` have a model
+    fn modelled_builtin(line: &str) -> bool {
+        let h = line.split(' ').nth(1).unwrap_or("");
+        unhex(h.trim_start_matches('!')).map_or(false, |d| d.starts_with(b"shutdown ") || d.starts_with(b"wait "))
+    }
     /// lines of the fixed list that send a built-in command with arguments it refuses
     fn refused_builtin(line: &str) -> bool {
         let h = line.split(' ').nth(1).unwrap_or("");
@@ -319,19 +324,30 @@ impl Group for Dispatch {
     fn run_impl(&self, _ctx: &Ctx, line: &str) -> String {
         let h = line.split(' ').nth(1).unwrap();
         let data = unhex(h.trim_start_matches('!')).unwrap();
-        self.send(data)
+        let out = self.send(data);
+        if Self::modelled_builtin(line) {
+            let refused = out.strip_prefix("close=0 data=").and_then(unhex).map_or(false, |r| r.starts_with(b"error"));
+            return format!("builtin:{} {out}", if refused { "refused" } else { "accepted" });
+        }
+        out
     }
     fn compare_with_model(&self, line: &str) -> bool {
-        // the model's plugin table holds `ping` only; the refused built-in commands are judged by the oracle alone
-        !Self::refused_builtin(line)
+        // the model's plugin table holds `ping`; `shutdown` and `wait` are modelled in `CtlShutdown` (refused or accepted);
+        // the other refused built-in commands are judged by the oracle alone
+        !Self::refused_builtin(line) || Self::modelled_builtin(line)
+    }
+    fn driver_line(&self, line: &str) -> String {
+        if Self::modelled_builtin(line) { line.replacen("c19.dispatch ", "c19.builtin ", 1) } else { line.to_owned() }
     }
     fn canon(&self, out: &str) -> String {
-        out.to_owned()
+        // `builtin:<verdict> <raw reply>`: the verdict is what is compared
+        if out.starts_with("builtin:") { out.split(' ').next().unwrap_or(out).to_owned() } else { out.to_owned() }
     }
     fn oracle(&self, _ctx: &Ctx, line: &str, out: &str) -> Option<(String, String)> {
         let h = line.split(' ').nth(1).unwrap();
         let binary = h.starts_with('!');
         let data = unhex(h.trim_start_matches('!')).unwrap();
+        let out = if out.starts_with("builtin:") { out.split_once(' ').map_or("", |x| x.1) } else { out };
         let Some(reply) = out.strip_prefix("close=0 data=").and_then(unhex) else {
             return Some((format!("noreply:{h}"), format!("no reply on the control socket: {out}")));
         };
